@@ -4,7 +4,7 @@ connection's checkpoint to the target's dependencies; verdict = imported schemas
 well formed, combined schema conforms).  Tie: whole validator (reading generated import files from the snapshot)
 vs the Coq model on importing scenarios and single faults."""
 import random, json, collections
-import common, kernel, engine, imports as I, imports_deep as D, scenario as S
+import common, kernel, engine, impl, imports as I, imports_deep as D, scenario as S
 
 LEVEL = "proof"
 
@@ -281,6 +281,109 @@ def _read_gen(ctx, fname):
         return None
 
 
+@impl.register
+def reached_checkpoints(payload):
+    """validate, then follow the validator's OWN record of what each action waits for (the map its ancestry and cycle
+    rules consult): aliases of every checkpoint reachable from the action; None when the record is not there"""
+    import json as js
+    from validation.schema_validator import SchemaValidator
+    v = SchemaValidator()
+    try:
+        errs = v.validate(json_string=js.dumps(payload["doc"]))
+    except BaseException as e:  # noqa
+        return {"raise": repr(e)}
+    refs, cps = getattr(v, "_action_checkpoint_refs", None), getattr(v, "_checkpoints", None)
+    if errs or not isinstance(refs, dict) or not isinstance(cps, dict):
+        return {"errors": [str(x) for x in errs[:3]], "record": isinstance(refs, dict) and isinstance(cps, dict)}
+    seen, aliases, todo = [], [], [refs.get(payload["action"])]
+    while todo:
+        ref = todo.pop()
+        if ref is None or ref in seen or ref not in cps:
+            continue
+        seen.append(ref)
+        aliases.append(cps[ref].get("alias"))
+        for d in cps[ref].get("dependencies", []):
+            if isinstance(d, dict) and "checkpoint" in d:
+                try:
+                    todo.append(v._normalize_ref(d["checkpoint"]))
+                except BaseException:  # noqa
+                    pass
+    return {"aliases": sorted(str(a) for a in aliases)}
+
+
+def threaded_target_family(ctx):
+    """A connection onto an imported THREADED action that has a checkpoint of its own (an editor that reaches the
+    creator of its promise only through that checkpoint), for every numbering of the native checkpoints from 0 to 24:
+    the checkpoint that stitching generates takes the next free native id, which must never be confused with a
+    checkpoint of the imported schema that happens to carry the same number (the thread group's checkpoint is 10, the
+    action's own is 21).  Oracle: the document is conformant under every numbering (the numbering of native checkpoints
+    is immaterial, Properties/C15.v) -- the import alone and the unconnected document are accepted."""
+    import os, json, impl
+    fn = "gen/threaded_target"
+    cmp_ = lambda ref, v=True: {"compare": {"left": {"ref": ref}, "right": {"value": v}, "operator": "EQUALS"}}
+    imported = {
+        "standard": "threaded target", "terms": [], "pipelines": [], "parties": [{"id": 5, "name": "party 0"}],
+        "object_types": [{"id": 0, "name": "holder", "attributes": [{"name": "edges", "type": "EDGE_COLLECTION", "object_type": "object_type:6"}, {"name": "done", "type": "BOOLEAN"}]},
+                         {"id": 6, "name": "item", "attributes": [{"name": "done", "type": "BOOLEAN"}, {"name": "label", "type": "STRING"}]}],
+        "object_promises": [{"id": 9, "name": "the holder", "object_type": "object_type:0"},
+                            {"id": 17, "name": "per item", "object_type": "object_type:6", "context": "thread_group:2"}],
+        "actions": [{"id": 11, "name": "make holder", "description": "d", "party": "party:5", "object_promise": "object_promise:9", "operation": {"include": ["done"]}},
+                    {"id": 15, "name": "make item", "description": "d", "party": "party:5", "object_promise": "object_promise:17", "context": "thread_group:2", "operation": {"include": ["done"]}},
+                    {"id": 20, "name": "edit item", "description": "d", "party": "party:5", "object_promise": "object_promise:17", "context": "thread_group:2",
+                     "depends_on": "checkpoint:21", "operation": {"include": ["label"]}}],
+        "checkpoints": [{"id": 10, "alias": "holder done", "description": "d", "dependencies": [cmp_("action:11.object_promise.done")]},
+                        {"id": 21, "alias": "item done", "description": "d", "context": "thread_group:2", "dependencies": [cmp_("action:15.object_promise.done")]}],
+        "thread_groups": [{"id": 2, "name": "items", "description": "d", "spawn": {"foreach": "object_promise:9.edges", "as": "$edge"}, "depends_on": "checkpoint:10"}]}
+    path = os.path.join(ctx.repo_copy, "schemas", fn + ".json")
+    os.makedirs(os.path.dirname(path), exist_ok=True)
+    json.dump(imported, open(path, "w"))
+
+    def native(top, connected=True, target="action:20"):
+        d = {"standard": "c16 threaded target", "terms": [], "pipelines": [], "parties": [{"id": 0, "name": "Project"}],
+             "imports": [{"file_name": fn, "connections": [{"to_ref": "schema:{%s}.%s" % (fn, target), "add_dependency": "checkpoint:%d" % top}] if connected else []}],
+             "object_types": [{"id": 0, "name": "Placeholder", "attributes": [{"name": "completed", "type": "BOOLEAN"}]}],
+             "object_promises": [{"id": 0, "name": "op0", "object_type": "object_type:0"}, {"id": 1, "name": "op1", "object_type": "object_type:0"}],
+             "actions": [{"id": 0, "name": "a0", "description": "d", "party": "party:0", "object_promise": "object_promise:0", "operation": {"include": ["completed"]}},
+                         {"id": 1, "name": "a1", "description": "d", "party": "party:0", "object_promise": "object_promise:1", "operation": {"include": ["completed"]},
+                          "depends_on": "checkpoint:%d" % top}],
+             "checkpoints": [{"id": top, "alias": "gate", "description": "d", "dependencies": [cmp_("action:0.object_promise.completed")]}]}
+        return d
+    docs = [("the imported schema alone", imported, True), ("not connected", native(3, connected=False), True)]
+    for top in range(0, 25):
+        docs.append(("connection onto the threaded editor, native checkpoint id %d (generated checkpoint gets %d)" % (top, top + 1), native(top), True))
+    for top in (8, 9, 10, 20, 21):
+        docs.append(("connection onto the threaded creator, native checkpoint id %d" % top, native(top, target="action:15"), True))
+    pool = impl.Pool(ctx, 4)
+    res = pool.validate_many([d for _, d, _ in docs])
+    pool.close()
+    if res[0]["outcome"] != "accept" or res[1]["outcome"] != "accept":
+        ctx.notes.append("threaded_target_family: controls not accepted (%s, %s): family skipped" % (res[0]["outcome"], res[1]["outcome"]))
+        ctx.coverage["threaded_target_family"] = {"documents": len(docs), "skipped": True}
+        return
+    bad = 0
+    for (what, d, ok), r in zip(docs, res):
+        if (r["outcome"] == "accept") != ok and bad < 2:
+            bad += 1
+            ctx.violation({"what": "a conformant importing document is not accepted: " + what, "document": d, "imported_files": {fn: imported},
+                           "errors": r.get("errors"), "exc": r.get("exc")})
+    # ... and what the validator itself records for the threaded editor afterwards: the added checkpoint AND what it
+    # waited for before (its own checkpoint, its thread group's checkpoint)
+    tops = list(range(0, 25))
+    pool = impl.Pool(ctx, 4)
+    rec = pool.call_many("reached_checkpoints", [{"doc": native(t), "action": "schema:{%s}.action:20" % fn} for t in tops], chunk=2)
+    pool.close()
+    lost = 0
+    for t, r in zip(tops, rec):
+        if isinstance(r, dict) and "aliases" in r:
+            missing = [a for a in ("gate", "item done", "holder done") if a not in r["aliases"]]
+            if missing and lost < 2:
+                lost += 1
+                ctx.violation({"what": "after validation the target of a connection (an imported threaded action) no longer waits for %s: the validator's own dependency record reaches only %s" % (missing, r["aliases"]),
+                               "document": native(t), "imported_files": {fn: imported}, "native_checkpoint_id": t})
+    ctx.coverage["threaded_target_family"] = {"documents": len(docs), "accepted": sum(1 for r in res if r["outcome"] == "accept"),
+                                              "dependency_records_read": sum(1 for r in rec if isinstance(r, dict) and "aliases" in r), "records_incomplete": lost}
+
+
 def same_file_histories(ctx, rng, n):
     """Several documents that import ONE file -- with its connections, without them, with them reversed onto other
     targets -- validated in sequences of three to five on one validator instance: every result must be the result a
@@ -378,6 +481,7 @@ def run(ctx):
         ctx.known_finding("a native checkpoint may depend on an imported action that appends objects (the 'no checkpoint depends on an appending action' rule is only enforced inside the imported schema); witness: checks/c16.py kf_witness")
     ctx.notes.append("known-finding witness: imported alone %s, importing %s" % (r_imp["outcome"], r_nat["outcome"]))
     same_file_histories(ctx, random.Random(ctx.seed + 9), 12 * scale)
+    threaded_target_family(ctx)
     deep_evaluated, deep_items = deep_family(ctx, 80 * scale, 120 * scale)
     evaluated = evaluated and deep_evaluated
     items = items + deep_items
